@@ -54,24 +54,24 @@ func register(p *Prop) {
 var explainExtra = map[string]string{
 	"C01": "Also decided: wire strings / error texts are never used as format strings in encoders, decoders and opaque types (R-FORMAT-ARG); every restored field comes from the wire alone (R-CODEC A8); the encodings of the branches of a multi-cause node do not alias one loop variable (R-LOOP-ALIAS). After round 4: a field that travels only in the wire message is read back from it (R-CODEC A9); what an unknowing process stores is the received field verbatim. After round 5: the formatter state's Write passes every byte but the newline through (R-WRITE-FAITHFUL); errno predicates and the native/opaque decision (R-ERRNO-TABLE). After round 6: every message-ownership announcement in formatRecursive is followed by the elision of the causes' texts (R-ELIDE); decodeWrapper/decodeLeaf return a layer of their own for every received layer (R-DECODE-RESULT); the special-case printer's arms print the wrapped value's own Error() (R-SPECIAL-TEXT, two known findings). After round 7: decoding never writes into the message it decodes (R-DECODE-READONLY); the renderer gives back every newline it takes (R-WRITE-FAITHFUL, separator clause; D21 fixed). After round 8: the same multi-cause clause of R-ELIDE (the text of a wrapper above a foreign multi-cause Formatter is stable across a hop). The wire message of an encoder-less type is its Error() text itself, not a sanitised copy (R-GENERIC-MSG). After round 10: the cause handed to encodeWrapper is UnwrapOnce(err) itself - a one-branch multi-cause node is not sent as a wrapper (R-ENC-DISPATCH); an encoder never finds its prefix by a front search of the text (R-PREFIX-CUT).",
 	"C02": "Also decided: the Error() shape of the opaque types (the text an unknowing process contributes to identity), no standard-library errors.Is/As inside the library (R-STD-IDENTITY), no wire text used as a format in codecs. After round 5: Mark always attaches the portable mark. After round 6: decoders decline on structural grounds only, never on the value of a member (R-DECLINE); no received layer is dropped (R-DECODE-RESULT). After round 7: a type-key extension is the annotation itself, not a shortened form (R-KEY-MARKER); the type-name part of a key is the type's own String() (R-TYPENAME-RAW). After round 8: the text that travels for an encoder-less type is the error's own text (R-GENERIC-MSG); errno predicates and the native/opaque decision (R-ERRNO-TABLE). After round 9: a field that a decoder takes over verbatim from a fixed detail position is written there verbatim (R-CODEC A10: the domain of withDomain). After round 10: every branch of a multi-cause node is encoded through EncodeError (R-WALK-MULTI, encoder clause); every layer of a chain contributes its type mark (R-MARK-LAYERS). After round 11: two type marks are equal only when family name and extension both are (R-MARK-EQUALS).",
-	"C03": "Also decided: the special-case printer declares safe only a sentinel's own text - text equality, not an Is/IsAny match, which an Is(error) bool method can fake (R-SPECIAL-LEAF); a decoder that delegates to another brings its (legacy, encoder-less) keys along when the wire message is classified. After round 4: layer text handed to a helper is followed into it (raw writes into the final buffer stay guarded, R-ESC interprocedural). After round 8: what ReportError itself writes into the event (tags, extra) is part of the S5 sinks. After round 9: the redactable-mode printer writes into the state through redact only (R-SAFE-SINK). After round 10: formatRecursive probes SafeFormatter before Formatter (R-FMT-PROBE-ORDER).",
-	"C04": "Also decided: for standard-library wrappers with encoders (PathError, LinkError, SyscallError) the wire message equals the prefix part of the type's own Error(), read from the standard-library source (R-WIRE-MSG W3). After round 4: the opaque fallbacks store the received fields verbatim (no constant substituted on some path); a redactable prefix is sent in its StripMarkers() form. After round 5: one separator constant at every composer and decomposer (R-SEP). After round 6: no received layer is dropped or replaced by its cause (R-DECODE-RESULT); read-only operations never rewrite the details an opaque value stores (R-EFFECT, scoped). After round 7: decoding never writes into the received message (R-DECODE-READONLY); a forwarding encoder does not recompute reportable strings from a nested error it decoded (R-REENCODE-STABLE; D22 fixed). After round 8: the outgoing message is the stored / encoder's / Error() text itself (R-GENERIC-MSG). After round 9/10: R-PREFIX-CUT; the stripped own-text form of a leaf's message counts as its Error() text.",
+	"C03": "Also decided: the special-case printer declares safe only a sentinel's own text - text equality, not an Is/IsAny match, which an Is(error) bool method can fake (R-SPECIAL-LEAF); a decoder that delegates to another brings its (legacy, encoder-less) keys along when the wire message is classified. After round 4: layer text handed to a helper is followed into it (raw writes into the final buffer stay guarded, R-ESC interprocedural). After round 8: what ReportError itself writes into the event (tags, extra) is part of the S5 sinks. After round 9: the redactable-mode printer writes into the state through redact only (R-SAFE-SINK). After round 10: formatRecursive probes SafeFormatter before Formatter (R-FMT-PROBE-ORDER). After round 12: no cut is taken from a buffer just before it is declared redactable (R-REDACTABLE-OPS, conversion clause: the finished redactable output is printed whole, whatever the verb's precision).",
+	"C04": "Also decided: for standard-library wrappers with encoders (PathError, LinkError, SyscallError) the wire message equals the prefix part of the type's own Error(), read from the standard-library source (R-WIRE-MSG W3). After round 4: the opaque fallbacks store the received fields verbatim (no constant substituted on some path); a redactable prefix is sent in its StripMarkers() form. After round 5: one separator constant at every composer and decomposer (R-SEP). After round 6: no received layer is dropped or replaced by its cause (R-DECODE-RESULT); read-only operations never rewrite the details an opaque value stores (R-EFFECT, scoped). After round 7: decoding never writes into the received message (R-DECODE-READONLY); a forwarding encoder does not recompute reportable strings from a nested error it decoded (R-REENCODE-STABLE; D22 fixed). After round 8: the outgoing message is the stored / encoder's / Error() text itself (R-GENERIC-MSG). After round 9/10: R-PREFIX-CUT; the stripped own-text form of a leaf's message counts as its Error() text. After round 12: an opaque value that stores the received details member by member stores every member, the type mark's extension included (R-OPAQUE-TRANSPORT).",
 	"C05": "Also decided: a payload that failed to unmarshal is never read (R-UNMARSHAL-OK). After round 4: a received opaque value is re-emitted from its stored fields and never handed to a registered encoder. After round 5: no member is read through a pointer field of a received message without a non-nil test (R-PB-NILPTR). After round 7: the codec registries never hold a nil function (R-REGISTRY-NONNIL). After round 8: no unchecked assertion on the result of a module function that can return nil (R-ASSERT-NIL); a fixed-size array is not indexed by a variable ranging over a received list (R-BOUNDS, array clause). After round 10: no adapter closure around a nil function in a codec registry (R-REGISTRY-CLOSURE; D27 fixed).",
 	"C06": "Also decided: the wire message of a legacy key without an encoder is classified as plain text - never relabelled redactable. After round 4: layer text is never transformed between collection and escaping on the redactable path only; helpers that receive layer text are followed. After round 5: Write compares its input with the newline only and never takes buffered text back (R-WRITE-FAITHFUL). After round 8: Formattable always interposes the library's adapter (R-FORMATTABLE). After round 9: the redactable-mode printer writes into the state through redact only, so marker runes inside safe values are escaped too (R-SAFE-SINK).",
-	"C07": "Also decided: for two non-nil errors WithSecondaryError/CombineErrors always build the wrapper holding both (R-SECONDARY-ATTACH); barrier / secondary constructors never skip on a condition computed from the error (R-ALWAYS-WRAPS); slot agreement, registered types and redactable conversions of the barrier and secondary-error types. After round 6: the hidden error is handed to the printer as a value in the verbose rendering, not rendered to text first (R-DETAIL-PRINT, as-a-value clause). After round 7: GetDomain reads the single-cause chain only (R-DOMAIN-GETTER); the renderer keeps empty lines, so Handled keeps the hidden text exactly (R-WRITE-FAITHFUL, separator clause). After round 8: every parameter of a hiding constructor reaches its result on every path (R-ARG-USED) - no fall-back to a sibling constructor for particular argument values. After round 9: an error among the format arguments becomes the cause only as the %w argument that redact.HelperForErrorf designates (R-ARG-NOT-CAUSE); WithSecondaryError with a nil primary returns nil (R-NIL, scoped). After round 10: the barrier sink returns a fresh barrier around the error it is given, never a re-labelled copy of an inner one (R-BARRIER-FRESH). After round 11: a code accessor reads the code from the layer that carries it (R-CODE-GETTER), never from relayed safe details.",
+	"C07": "Also decided: for two non-nil errors WithSecondaryError/CombineErrors always build the wrapper holding both (R-SECONDARY-ATTACH); barrier / secondary constructors never skip on a condition computed from the error (R-ALWAYS-WRAPS); slot agreement, registered types and redactable conversions of the barrier and secondary-error types. After round 6: the hidden error is handed to the printer as a value in the verbose rendering, not rendered to text first (R-DETAIL-PRINT, as-a-value clause). After round 7: GetDomain reads the single-cause chain only (R-DOMAIN-GETTER); the renderer keeps empty lines, so Handled keeps the hidden text exactly (R-WRITE-FAITHFUL, separator clause). After round 8: every parameter of a hiding constructor reaches its result on every path (R-ARG-USED) - no fall-back to a sibling constructor for particular argument values. After round 9: an error among the format arguments becomes the cause only as the %w argument that redact.HelperForErrorf designates (R-ARG-NOT-CAUSE); WithSecondaryError with a nil primary returns nil (R-NIL, scoped). After round 10: the barrier sink returns a fresh barrier around the error it is given, never a re-labelled copy of an inner one (R-BARRIER-FRESH). After round 11: a code accessor reads the code from the layer that carries it (R-CODE-GETTER), never from relayed safe details. After round 12: the SafeDetails() of a barrier / secondary-error wrapper walks ALL layers of the hidden error, starting at the hidden error itself (R-HIDDEN-DETAILS).",
 	"C08": "Also decided: Mark always wraps (R-ALWAYS-WRAPS); chain walks use the current layer, not the root of the walk (R-WALK-CURRENT); a memoised identity function is keyed by what its value is computed from (R-MEMO); no standard-library identity tests inside the library. After round 5: a layer's own Is method is asked for every pair, in Is and IsAny alike (R-IS-METHOD); Is/IsAny range over UnwrapMulti itself. After round 7: a type-key extension (ErrorKeyMarker) is the annotation itself (R-KEY-MARKER). After round 9: the type-name part of a key is the type's own String(), generic instantiations included (R-TYPENAME-RAW). After round 10: IsAny never recurses into a nil branch (R-ISANY-NIL; D25 fixed); a branch is handed to a function that runs both phases (R-WALK-FULL); every layer contributes its type mark (R-MARK-LAYERS). After round 11: two type marks are equal only when family name and extension both are (R-MARK-EQUALS).",
 	"C09": "Also decided: the formatting state forwards Flag/Width/Precision of the caller's fmt.State unchanged (R-STATE-FLAGS); the special-case printer's arms for standard-library wrappers print what the wrapper's own Error() prints, by symbolic execution of both over the receiver's fields (R-SPECIAL-TEXT). After round 4: details that a decoder reads by position are written at fixed positions (R-CODEC A2). After round 5: the Formattable adapter hands every verb to FormatError; detail formatters print stored texts, never use them as formats; the whole-text arms of the special-case printer print Error(); Write is faithful. After round 6: message ownership is honoured at every site of formatRecursive (R-ELIDE); hidden errors are printed as values. After round 7: a layer prints its own detail whatever its cause chain contains (R-DETAIL-PRINT, cause-independence clause); separators written for pending newlines are never empty (R-WRITE-FAITHFUL; D21 fixed). After round 8: a foreign multi-cause error rendered through its own Format method or formatSimple always gets its branches elided (R-ELIDE, multi-cause clause; D23 fixed). After round 9: the rendered text reaches the caller's fmt.State as a string operand, and the %!verb(type) notation is copied verbatim (R-FINISH). After round 10: newlines are held back in the detail mode only (R-WRITE-FAITHFUL; D26 fixed); UnwrapOnce probes the single-cause protocols only (R-PROTOCOL, scoped).",
 	"C10": "Also decided: no annotation constructor skips the annotation on a condition computed from the error (R-ALWAYS-WRAPS); walks use the current layer (R-WALK-CURRENT). After round 4: every layer of the chain looks into its branches in Is/IsAny/As; format strings are always formatted (R-FORMAT-STORED). After round 5: a join owns its branch slice (R-OWNED-BRANCHES). After round 6: no constructor boxes a pointer that can be nil into its error result (R-BOXED-NIL; constructor helpers that hand the wrapper out under its pointer type are part of the constructor census); the walks of Is/IsAny never end early (R-LOOP-EXITS). After round 7: the documented pass-through of WithSafeDetails / WithContextTags happens under exactly the documented condition (R-PASSTHROUGH-GUARD); UnwrapMulti answers by the protocol alone (R-MULTI-UNCOND). After round 8: every parameter of an annotation constructor reaches the returned wrapper on every path (R-ARG-USED). After round 9: Wrapf with an error among its arguments keeps the wrapped error as the primary one (R-BARRIER-CTOR, scoped). After round 10: the ': ' separator is cut as a unit (R-SEP); barrier constructors (R-BARRIER-CTOR, all constructs).",
 	"C11": "Also decided: the code accessors return only the found code or the contract's constants (R-CODE-GETTER); a native errno is rebuilt only for an identical platform string; an empty printed stack is no stack (R-STACK-EMPTY); every restored field comes from the wire alone (A8). After round 4: every key that sends a payload has a decoder (R-PAYLOAD-DECODER); the safe details of encoder-less types go out untransformed (R-GENERIC-PATH); the printed stack is the whole stack (R-STACK-WHOLE). After round 6: decoders decline on structural grounds only (R-DECLINE); a list annotation that travels as the safe details is sent and restored as itself (R-LIST-ROUNDTRIP); every printed stack entry yields a frame (R-FRAME-PER-ENTRY). After round 7: the pkg/errors adapters send the whole StackTrace() (R-STACK-WHOLE). After round 9: R-CODEC A10; the server interceptor's status message is valid UTF-8, so the details travel (R-GRPC-FLOW; D24 fixed). After round 10: encoders apply no lossy string transformation to what they send (R-ENC-VERBATIM); decoders never use a received text as a format (R-FORMAT-ARG); no memo keyed by less than the value depends on (R-MEMO).",
-	"C12": "Also decided: no standard-library identity test decides what is printed as safe; per-branch encodings do not alias one variable. After round 4: no safe-carrying constructor skips its annotation (R-ALWAYS-WRAPS). After round 5: a hidden error rendered into safe details is rendered verbosely; identity/type-name functions are not memoised under a lossy key. After round 6: read-only operations (accessors, SafeDetails, report building) never rewrite what an error carries as safe details (R-EFFECT, scoped). After round 7: WithSafeDetails returns the error unchanged only for an empty format AND no arguments (R-PASSTHROUGH-GUARD). After round 8: every parameter of the safe-detail-carrying constructors reaches the result (R-ARG-USED); a join owns its branch list. After round 9: depth forwarding of the stack-capturing constructors (R-DEPTH) and 'a constant message is never a format' (R-FORMAT-ARG, errutil) are counted here too. After round 10: SafeFormatter is probed before Formatter (R-FMT-PROBE-ORDER); no plain string relabelled as redactable (R-TAINT/redactable). After round 11: getDetails probes SafeDetailer before the StackTrace() fallback (R-DETAILS-ORDER).",
+	"C12": "Also decided: no standard-library identity test decides what is printed as safe; per-branch encodings do not alias one variable. After round 4: no safe-carrying constructor skips its annotation (R-ALWAYS-WRAPS). After round 5: a hidden error rendered into safe details is rendered verbosely; identity/type-name functions are not memoised under a lossy key. After round 6: read-only operations (accessors, SafeDetails, report building) never rewrite what an error carries as safe details (R-EFFECT, scoped). After round 7: WithSafeDetails returns the error unchanged only for an empty format AND no arguments (R-PASSTHROUGH-GUARD). After round 8: every parameter of the safe-detail-carrying constructors reaches the result (R-ARG-USED); a join owns its branch list. After round 9: depth forwarding of the stack-capturing constructors (R-DEPTH) and 'a constant message is never a format' (R-FORMAT-ARG, errutil) are counted here too. After round 10: SafeFormatter is probed before Formatter (R-FMT-PROBE-ORDER); no plain string relabelled as redactable (R-TAINT/redactable). After round 11: getDetails probes SafeDetailer before the StackTrace() fallback (R-DETAILS-ORDER). After round 12: the safe details of a hidden error are collected from all of its layers (R-HIDDEN-DETAILS).",
 	"C13": "Also decided: the multi-cause types hand the whole node to the dispatcher through their own Format method; per-branch encodings do not alias one variable. After round 4: joining always yields a multi-cause node (R-JOIN-NODE); the join type renders live branch texts (R-SHAPE). After round 5: a declining multi-cause decoder falls back to the opaque leaf (R-DECODE-NONNIL); multi-cause errors are leaves for UnwrapOnce. After round 7: a join's branches are its arguments, never the spliced branches of a nested join (R-JOIN-ELEMENTS); UnwrapMulti returns the branches under no other condition than the type assertion (R-MULTI-UNCOND). After round 8: join.Join drops exactly the nil arguments (R-JOIN-FILTER); the formatter collects an entry for every node it enters (R-VISIT-ALL). After round 10: As tests every layer itself besides searching its branches (R-LOOP-EXITS for errutil.As). The dispatcher hands encodeWrapper the UnwrapOnce cause only (R-ENC-DISPATCH). After round 11: the elision clauses of formatRecursive (R-ELIDE) are counted here too.",
 	"C14": "Also decided: UnwrapAll stops exactly where UnwrapOnce is nil - induction variable, exit condition and result (R-UNWRAPALL); no standard-library Is/As/Unwrap inside the library. After round 4: interface comparisons in Is/IsAny are guarded by the comparability of the right operand (R-CMP-GUARD). After round 5: the As target validation tests the element type (R-AS-TARGET); a layer's Is method is always asked; joins own their slices. After round 6: no interface value of unknown dynamic type is used as a map key (R-CMP-GUARD, hashing clause); Is/IsAny/As look into the branches of the chain variable itself, at every layer (R-WALK-MULTI). After round 7: UnwrapMulti answers by the protocol alone (R-MULTI-UNCOND). After round 8: join.Join keeps every non-nil argument, like the standard library (R-JOIN-FILTER). After round 10: a layer's Is method is asked whatever the receiver is (R-IS-DELEGATE); loop exits of Is / IsAny / As (R-LOOP-EXITS).",
-	"C15": "Also decided: reverseExceptionOrder is a reversal - the swapped indices satisfy a+b = len-1 by induction over the loop (R-REVERSE); the function-name split is a partition of the runtime name outside type-argument brackets (R-FUNCNAME); an empty printed stack yields no frames. After round 4: a text is cut at a search result exactly when something was found (R-INDEX-FOUND); the message prefix is GetOneLineSource of the reported error. After round 5: no per-layer text is carried from one layer to the next (R-PER-LAYER); the synthetic exception is built exactly when no exception was collected. After round 6: every printed stack entry yields a frame (R-FRAME-PER-ENTRY). After round 7: GetDomain (the module of every exception) reads the single-cause chain only (R-DOMAIN-GETTER). After round 8: the report visitor is applied to every node (R-VISIT-ALL); the two stack accessors probe StackTraceProvider before SafeDetailer (R-PROBE-ORDER). After round 10: the type names a received layer reports (R-OPAQUE-TRANSPORT, getTypeDetails); GetOneLineSource asks the cause first (R-ORDER).",
+	"C15": "Also decided: reverseExceptionOrder is a reversal - the swapped indices satisfy a+b = len-1 by induction over the loop (R-REVERSE); the function-name split is a partition of the runtime name outside type-argument brackets (R-FUNCNAME); an empty printed stack yields no frames. After round 4: a text is cut at a search result exactly when something was found (R-INDEX-FOUND); the message prefix is GetOneLineSource of the reported error. After round 5: no per-layer text is carried from one layer to the next (R-PER-LAYER); the synthetic exception is built exactly when no exception was collected. After round 6: every printed stack entry yields a frame (R-FRAME-PER-ENTRY). After round 7: GetDomain (the module of every exception) reads the single-cause chain only (R-DOMAIN-GETTER). After round 8: the report visitor is applied to every node (R-VISIT-ALL); the two stack accessors probe StackTraceProvider before SafeDetailer (R-PROBE-ORDER). After round 10: the type names a received layer reports (R-OPAQUE-TRANSPORT, getTypeDetails); GetOneLineSource asks the cause first (R-ORDER). After round 12: the reversal's bound is exact - len(ex)/2 (or the a < b form), not one pair short (R-REVERSE, bound clause).",
 	"C16": "Also decided: domain and stack functions are not memoised under a lossy key (R-MEMO); the function-name split handles instantiated generic functions; an empty printed stack gives no location. After round 5: stack-capturing constructors never skip the capture on a condition computed from the error; the printed stack is the whole stack. After round 6: JoinWithDepth always goes through WithStackDepth (R-JOIN-NODE, scoped). After round 8: GetOneLineSource and GetReportableStackTrace ask a layer the same questions in the same order (R-PROBE-ORDER). After round 9: the package domain is computed from the caller's file, not from its function name (R-PKG-DOMAIN). After round 10: the recorded stack is the captured one, not a function of it (R-STACK-RAW).",
-	"C17": "Also decided: the encoder/decoder registries are consulted under the family name, never the original type name (R-REGISTRY-KEY); RegisterTypeMigration keeps the registry transitively closed in both directions, so chained renames give the same registry in either order (CLOSE-BACK / CLOSE-FWD). After round 4: the previous name of a migration is a written-down constant. After round 7: the type-name part of a type key is reflect.TypeOf(err).String() itself (R-TYPENAME-RAW).",
+	"C17": "Also decided: the encoder/decoder registries are consulted under the family name, never the original type name (R-REGISTRY-KEY); RegisterTypeMigration keeps the registry transitively closed in both directions, so chained renames give the same registry in either order (CLOSE-BACK / CLOSE-FWD). After round 4: the previous name of a migration is a written-down constant. After round 7: the type-name part of a type key is reflect.TypeOf(err).String() itself (R-TYPENAME-RAW). After round 12: the package-path part of a live type's key is reflect.Type.PkgPath() itself, so it equals the key RegisterTypeMigration builds from the caller's strings (R-TYPENAME-RAW, package-path clause).",
 	"C18": "Also decided: append into a re-sliced, non-fresh slice is a write into the shared backing array. After round 4: package-level sync.Map / sync.Pool updates reachable from read-only operations count as shared state. After round 6: package-level maps and slices are never stored into other objects, returned or passed out of the module (R-GLOBAL-ALIAS). After round 7: outside initialisers no address of a package-level variable is passed as an argument, except to the synchronisation types (R-GLOBAL-ADDR). After round 9: no append onto a slice that an interface method of an arbitrary error handed out (R-EFFECT). After round 10: the aggregating accessors hand out slices built by the call (R-RESULT-FRESH).",
 	"C19": "Also decided: the hint/detail/link/key/tag/safe-detail constructors never skip on a condition computed from the error; the accessors traverse with errbase.UnwrapOnce (no standard-library Unwrap). After round 4: a format string is always formatted, also without arguments (R-FORMAT-STORED). After round 6: the per-layer accessor GetIssueLink answers by the type of the layer (R-LAYER-GETTER). After round 7: the documented pass-through conditions of the annotation constructors are exactly the documented ones (R-PASSTHROUGH-GUARD). After round 8: every parameter of the hint/detail/link/key constructors reaches the result (R-ARG-USED); the root API forwards each of them to its namesake. After round 9: GetContextTags returns a buffer unconverted only after a loop that tested every tag's value (R-TAGS-STRINGS); a Join of one error is still a node (R-JOIN-NODE). After round 10: exactly the documented types provide hints / details, promoted methods included (R-HINT-PROVIDERS).",
-	"C20": "Also decided: GetGrpcCode returns only the attached code, OK for nil and Unknown otherwise (R-CODE-GETTER); the restored code comes from the wire alone. After round 4: the error returned by the server is the Err() of the status found in, or built for, the handler's error, never another status; a non-nil error never travels with status OK. After round 5: the client uses every decoded error unconditionally and passes the invoker's error through only where nothing was decoded. After round 6: the code decoders decline on structural grounds only - a zero code is a legal code (R-DECLINE, scoped). After round 8: the code given to WrapWithGrpcCode reaches the result on every path (R-ARG-USED). After round 9: the status message is the handler's text made valid UTF-8 (D24 fixed); the client examines every detail of the status, over the whole Details() list.",
+	"C20": "Also decided: GetGrpcCode returns only the attached code, OK for nil and Unknown otherwise (R-CODE-GETTER); the restored code comes from the wire alone. After round 4: the error returned by the server is the Err() of the status found in, or built for, the handler's error, never another status; a non-nil error never travels with status OK. After round 5: the client uses every decoded error unconditionally and passes the invoker's error through only where nothing was decoded. After round 6: the code decoders decline on structural grounds only - a zero code is a legal code (R-DECLINE, scoped). After round 8: the code given to WrapWithGrpcCode reaches the result on every path (R-ARG-USED). After round 9: the status message is the handler's text made valid UTF-8 (D24 fixed); the client examines every detail of the status, over the whole Details() list. After round 12: the status that receives the details is one the interceptor built with status.New - never the raw-text status that status.FromError prepared on its not-ok edge.",
 }
 
 // Get returns the property description.
